@@ -45,6 +45,13 @@ func properties() []*propDef {
 			Assumptions: []string{"documented aggregate list of the property statement"},
 		},
 		{
+			ID: "C08", Title: "Integer/Decimal arithmetic is exact; overflow and division by zero give empty",
+			Rules: []ruleFn{ruleARIINT, ruleARI5, ruleARI2, ruleARI3, ruleARI4, rulePAN2},
+			Explanation: "ARI-INT: exhaustive abstract evaluation (constant propagation with Go's fixed-width integer semantics) of Integer.Add/Sub/Mul and of EvaluateAdd/Sub/Mul/FloorDiv/Mod/Div on Integer operands over the 15x15 boundary pool, compared with math/big: exact result, ErrIntOverflow outside int32, ErrDivideByZero for a zero divisor; Decimal zero divisors via the IsZero guard. ARI5: ArithmeticExpression maps exactly those two sentinels to empty, reports other errors and passes operands in order; unary minus over the pool. ARI2: no raw int32 arithmetic outside the checked helpers in the value layer. ARI3: every float→integer conversion is dominated by a range check. ARI4: the exact numeric functions and operators do not detour through float64. PAN2: every division has a zero-tested divisor.",
+			NotDecided: []string{"exactness of Decimal results (inside shopspring/decimal, trusted)", "16-digit division precision", "random (non-boundary) Integer pairs — the helpers are branch-only functions of comparisons with the boundary structure, evaluated on the pool the property names"},
+			Assumptions: []string{"shopspring/decimal arithmetic is exact"},
+		},
+		{
 			ID: "C16", Title: "Every built-in function is callable under its specification name and arity",
 			Rules: []ruleFn{ruleTAB1, ruleTAB2, ruleTAB3, ruleTAB4, ruleGLB1, ruleGLB2},
 			Explanation: "Exhaustive over both function tables as they stand in the working tree: TAB1 compares every key with the implementation bound to it (name agreement) and every exported implementation with its registration; TAB2 decides, for every entry and n=0..5, by conditional constant propagation under len(args)=n whether the implementation itself rejects the arity, and compares with the table bounds and the frozen FHIRPath N1 arities; TAB3 shows the placeholder errors on all paths; TAB4 shows VisitFunction constructs the call node iff the name was found and Min<=n<=Max.",
